@@ -265,6 +265,71 @@ theorem Good.sameCW {E : Ext W} {L : Nat} {s s' : State W} (hcnt : s'.count = s.
   refine ⟨⟨by omega, by rw [hw]; exact E.refl _⟩, ?_⟩
   intro hp h0; have := hp h0; omega
 
+/-- one statement that starts within the budget: everything that follows progresses from the *ticked* state -/
+theorem execM₀_step_good (E : Ext W) (cfg : Config W) (fuel : Nat) (ih : GoodM E cfg fuel) (P : List Stmt)
+    (locals : Option Env) (base : Option String) (pc : Nat) (st : State W) (s : Stmt) (hs : P[pc]? = some s)
+    (hb : ¬ ((decide (cfg.maxStatements > 0) && decide (st.count + 1 > cfg.maxStatements)) = true)) :
+    Good E cfg.maxStatements { st with count := st.count + 1 } (execM₀ cfg (fuel+1) P locals base pc st).fin := by
+  obtain ⟨ihC, ihE, ihI⟩ := ih
+  rw [execM₀.eq_1, hs]
+  simp only
+  rw [if_neg hb]
+  cases s with
+    | expr name e =>
+      simp only
+      have h1 := evalExpr_good E _ cfg _ ihC locals e { st with count := st.count + 1 }
+      generalize evalExpr cfg _ locals e _ = r at h1
+      cases r with
+      | err e st2 => exact h1
+      | oof => trivial
+      | ok v st2 =>
+        cases name <;> cases locals <;> simp only
+        · exact h1.trans (ihE ..)
+        · exact h1.trans (ihE ..)
+        · exact ((h1).trans (Good.sameCW (s' := { st2 with globals := _ }) rfl rfl)).trans (ihE ..)
+        · exact h1.trans (ihE ..)
+    | jump l c =>
+      cases c with
+      | none =>
+        simp only
+        cases findLabel P l with
+        | none => exact Good.errHere E _ _ _ (by intro m h; cases h)
+        | some i => exact ihE ..
+      | some c =>
+        simp only
+        have h1 := evalExpr_good E _ cfg _ ihC locals c { st with count := st.count + 1 }
+        generalize evalExpr cfg _ locals c _ = r at h1
+        cases r with
+        | err e st2 => exact h1
+        | oof => trivial
+        | ok v st2 =>
+          simp only
+          split
+          · cases findLabel P l with
+            | none => exact h1.trans (Good.errHere E _ _ _ (by intro m h; cases h))
+            | some i => exact h1.trans (ihE ..)
+          · exact h1.trans (ihE ..)
+    | ret e =>
+      cases e with
+      | none => exact Good.refl ..
+      | some e =>
+        simp only
+        have h1 := evalExpr_good E _ cfg _ ihC locals e { st with count := st.count + 1 }
+        generalize evalExpr cfg _ locals e _ = r at h1
+        cases r <;> exact h1
+    | label l => exact ihE ..
+    | function fid name args laa isAsync body =>
+      exact ((Good.sameCW (s' := { globals := _, world := st.world, count := st.count + 1 }) rfl rfl)).trans (ihE ..)
+    | «include» incs =>
+      simp only
+      have h1 := ihI base incs { st with count := st.count + 1 }
+      generalize execIncludes₀ cfg fuel base incs _ = r at h1
+      cases r with
+      | done st2 => exact h1.trans (ihE ..)
+      | ret v st2 => exact h1
+      | err e st2 => exact h1
+      | oof => trivial
+
 theorem goodM (E : Ext W) (cfg : Config W) (hE : HostExt E cfg.host) : ∀ fuel, GoodM E cfg fuel
   | 0 => by
     refine ⟨?_, ?_, ?_⟩
@@ -305,77 +370,22 @@ theorem goodM (E : Ext W) (cfg : Config W) (hE : HostExt E cfg.host) : ∀ fuel,
       · exact runTree_good E _ cfg _ ihC hE.logFailure _ s (hE.other _ _ _)
       · exact ⟨⟨Nat.le_refl _, hE.notCallable _ _⟩, id⟩
     · intro P locals base pc st
-      rw [execM₀.eq_1]
-      cases P[pc]? with
-      | none => exact Good.refl ..
+      cases hs : P[pc]? with
+      | none => rw [execM₀.eq_1, hs]; exact Good.refl ..
       | some s =>
-        simp only
-        split
-        · next hb =>
+        by_cases hb : (decide (cfg.maxStatements > 0) && decide (st.count + 1 > cfg.maxStatements)) = true
+        · rw [execM₀.eq_1, hs]
+          simp only
+          rw [if_pos hb]
           simp only [Bool.and_eq_true, decide_eq_true_eq] at hb
           refine ⟨⟨Nat.le_succ _, E.refl _⟩, fun hp => ?_⟩
           have := hp hb.1
           exact ⟨hb.1, rfl, by simp only; omega⟩
-        · next hb =>
-          simp only [Bool.and_eq_true, decide_eq_true_eq] at hb
-          have h0 : Good E cfg.maxStatements st (.ok { st with count := st.count + 1 }) := by
+        · have h0 : Good E cfg.maxStatements st (.ok { st with count := st.count + 1 }) := by
+            simp only [Bool.and_eq_true, decide_eq_true_eq] at hb
             refine ⟨⟨Nat.le_succ _, E.refl _⟩, fun _ h0 => ?_⟩
             simp only; omega
-          cases s with
-          | expr name e =>
-            simp only
-            have h1 := evalExpr_good E _ cfg _ ihC locals e { st with count := st.count + 1 }
-            generalize evalExpr cfg _ locals e _ = r at h1
-            cases r with
-            | err e st2 => exact h0.trans h1
-            | oof => trivial
-            | ok v st2 =>
-              cases name <;> cases locals <;> simp only
-              · exact (h0.trans h1).trans (ihE ..)
-              · exact (h0.trans h1).trans (ihE ..)
-              · exact ((h0.trans h1).trans (Good.sameCW (s' := { st2 with globals := _ }) rfl rfl)).trans (ihE ..)
-              · exact (h0.trans h1).trans (ihE ..)
-          | jump l c =>
-            cases c with
-            | none =>
-              simp only
-              cases findLabel P l with
-              | none => exact h0.trans (Good.errHere E _ _ _ (by intro m h; cases h))
-              | some i => exact h0.trans (ihE ..)
-            | some c =>
-              simp only
-              have h1 := evalExpr_good E _ cfg _ ihC locals c { st with count := st.count + 1 }
-              generalize evalExpr cfg _ locals c _ = r at h1
-              cases r with
-              | err e st2 => exact h0.trans h1
-              | oof => trivial
-              | ok v st2 =>
-                simp only
-                split
-                · cases findLabel P l with
-                  | none => exact (h0.trans h1).trans (Good.errHere E _ _ _ (by intro m h; cases h))
-                  | some i => exact (h0.trans h1).trans (ihE ..)
-                · exact (h0.trans h1).trans (ihE ..)
-          | ret e =>
-            cases e with
-            | none => exact h0
-            | some e =>
-              simp only
-              have h1 := evalExpr_good E _ cfg _ ihC locals e { st with count := st.count + 1 }
-              generalize evalExpr cfg _ locals e _ = r at h1
-              cases r <;> exact h0.trans h1
-          | label l => exact h0.trans (ihE ..)
-          | function fid name args laa isAsync body =>
-            exact (h0.trans (Good.sameCW (s' := { globals := _, world := st.world, count := st.count + 1 }) rfl rfl)).trans (ihE ..)
-          | «include» incs =>
-            simp only
-            have h1 := ihI base incs { st with count := st.count + 1 }
-            generalize execIncludes₀ cfg fuel base incs _ = r at h1
-            cases r with
-            | done st2 => exact (h0.trans h1).trans (ihE ..)
-            | ret v st2 => exact h0.trans h1
-            | err e st2 => exact h0.trans h1
-            | oof => trivial
+          exact h0.trans (execM₀_step_good E cfg fuel ⟨ihC, ihE, ihI⟩ P locals base pc st s hs hb)
     · intro base incs st
       cases incs with
       | nil => rw [execIncludes₀.eq_1]; exact Good.refl ..
@@ -394,5 +404,15 @@ theorem goodM (E : Ext W) (cfg : Config W) (hE : HostExt E cfg.host) : ∀ fuel,
           | ret v st2 => exact h1.trans (ihI ..)
           | err e st2 => exact h1
           | oof => trivial
+
+/-- a statement that starts within the budget: the final state is reached from the *ticked* state (so the counter
+strictly increases over a started statement), for every fuel -/
+theorem execM₀_tick_good (E : Ext W) (cfg : Config W) (hE : HostExt E cfg.host) (fuel : Nat) (P : List Stmt)
+    (locals : Option Env) (base : Option String) (pc : Nat) (st : State W) (s : Stmt) (hs : P[pc]? = some s)
+    (hb : ¬ ((decide (cfg.maxStatements > 0) && decide (st.count + 1 > cfg.maxStatements)) = true)) :
+    Good E cfg.maxStatements { st with count := st.count + 1 } (execM₀ cfg fuel P locals base pc st).fin := by
+  cases fuel with
+  | zero => rw [execM₀.eq_1, hs]; trivial
+  | succ fuel => exact execM₀_step_good E cfg fuel (goodM E cfg hE fuel) P locals base pc st s hs hb
 
 end C09
